@@ -78,6 +78,9 @@ def build(template, L, q=4):
             if t.get("inner_kind") == "slur":
                 part.add(S.Slur(start_note=n, end_note=n2), start, end)
                 part.add(S.Tuplet(start_note=n, end_note=n2), start, end)
+                fm = S.Fermata(n)  # a fermata on the first note: note.fermata / fermata.ref are references too
+                n.fermata = fm
+                part.add(fm, start)
             else:
                 n.tie_next, n2.tie_prev = n2, n
             part.add(S.GraceNote("grace", "CDEFGAB"[i], 5, id="g" + name, voice=1, staff=1), start, start)
@@ -178,6 +181,11 @@ def check_unfolded(new, orig_part, bounds, visits, update_ids, label, template=N
                     check(len(getattr(a, st)) == 1 and getattr(a, st)[0] is o and len(getattr(b, sp)) == 1 and getattr(b, sp)[0] is o,
                           label + ": %s lists of the copied notes do not hold the copy's own bracket" % cls.__name__, a.id, b.id)
                     check(o.start.t == a.start.t and o.end.t == b.end.t, label + ": %s extent is not the visit's extent" % cls.__name__, o.start.t, o.end.t)
+            fms = sorted(new.iter_all(S.Fermata), key=lambda o: o.start.t)
+            check(len(fms) == n_inner, label + ": one fermata per visit of the section", len(fms), n_inner)
+            for a, fm in zip(firsts, fms):
+                check(a.fermata is fm and fm.ref is a, label + ": fermata and note of a visit do not refer to each other (reference leaves the copy)",
+                      a.id, getattr(getattr(a.fermata, "ref", None), "id", None), getattr(fm.ref, "id", None))
             firsts = []
         for a, b in zip(firsts, seconds):
             check(a.tie_next is b and b.tie_prev is a, label + ": tie inside a repeated section does not stay inside its visit",
